@@ -102,6 +102,35 @@ fn ref_chunks(nwords: usize, wbits: usize, p: usize, init_words: usize, count: u
     out
 }
 
+/// the same reference for a precision SCHEDULE: position i is decoded at precision `precs[i]`; changing the
+/// precision leaves the compressed head (the leftover bits) untouched, so only the rule "pull a word when fewer
+/// than P_i leftover bits remain; its low P_i bits are the chunk" changes from position to position
+fn ref_chunks_sched(nwords: usize, wbits: usize, precs: &[usize], init_words: usize) -> Vec<Option<Vec<(usize, usize)>>> {
+    let mut head: Vec<(usize, usize)> = vec![];
+    let mut next_word = nwords as isize - 1 - init_words as isize;
+    let mut out = vec![];
+    let mut dead = false;
+    for &p in precs {
+        if dead { out.push(None); continue; }
+        if p == wbits || head.len() < p {
+            if next_word < 0 { out.push(None); dead = true; continue; }
+            let w = next_word as usize;
+            next_word -= 1;
+            let chunk: Vec<_> = (0..p).map(|b| (w, b)).collect();
+            if p != wbits {
+                let mut nh: Vec<_> = (p..wbits).map(|b| (w, b)).collect();
+                nh.extend(head.iter().cloned());
+                head = nh;
+            }
+            out.push(Some(chunk));
+        } else {
+            let chunk: Vec<_> = head.drain(0..p).collect();
+            out.push(Some(chunk));
+        }
+    }
+    out
+}
+
 macro_rules! chain_impl {
     ($modname:ident, $W:ty, $S:ty, $P:literal) => {
         pub mod $modname {
@@ -500,6 +529,26 @@ macro_rules! schedule_impl {
                 let mut c3: C1 = match cc.change_precision::<$P1>() { Ok(x) => x, Err(_) => { st.out_of_data += 1; continue; } };
                 for &l in m3 { match d1(&mut c3, l) { Some(k) => { t3.push((l, k)); st.steps += 1; } None => { out = true; break; } } }
                 if out { st.out_of_data += 1; continue; }
+                // C14 under a precision schedule: every decoded symbol is what its model assigns to its chunk of the data
+                {
+                    let wbits = <$W>::BITS as usize;
+                    let sbits = <$S>::BITS as usize;
+                    let init_words = { let need = sbits - wbits - $P1; (need + wbits - 1) / wbits };
+                    let precs: Vec<usize> = t1.iter().map(|_| $P1 as usize).chain(t2.iter().map(|_| $P2 as usize)).chain(t3.iter().map(|_| $P1 as usize)).collect();
+                    let chunks = ref_chunks_sched(data.len(), wbits, &precs, init_words);
+                    for (i, &(l, k)) in t1.iter().chain(t2.iter()).chain(t3.iter()).enumerate() {
+                        st.ref_chunk_checks += 1;
+                        let expect = chunks[i].as_ref().map(|bits| {
+                            let q: u64 = bits.iter().enumerate().map(|(j, &(w, b))| (((data[w] >> b) & 1) as u64) << j).sum();
+                            if q < l.c { 0u8 } else if q < l.c + l.p { 1 } else { 2 }
+                        });
+                        if expect != Some(k) {
+                            st.bad.push(("C14:ChainCoder::decode_symbol | precision schedule | symbol i is not what model i assigns to chunk i of the data".into(),
+                                format!("{name} (variant {variant}): data {:x?} models {:?}/{:?}/{:?}: position {i} decoded {k}, chunk model says {:?}", data, m1, m2, m3, expect)));
+                            break;
+                        }
+                    }
+                }
                 // way back, through exported remainders
                 st.continuations += 1;
                 let (prefix, suffix) = c3.into_remainders().unwrap();
@@ -552,6 +601,53 @@ schedule_impl!(sched_16_32_12_8, u16, u32, 12, 8);
 schedule_impl!(sched_16_32_10_16, u16, u32, 10, 16);
 schedule_impl!(sched_16_32_12_16, u16, u32, 12, 16);
 schedule_impl!(sched_16_32_16_8, u16, u32, 16, 8);
+
+/// the precision-schedule runs (shared by C13: restoration, and C14: chunk locality under a schedule)
+fn run_schedules(report: &Report, total: &mut Stats, q: bool) {
+    let few8: Vec<u8> = vec![0x00, 0x01, 0x80, 0xff, 0x5a];
+    let few16: Vec<u16> = vec![0, 1, 0x8000, 0xffff, 0x5a5a];
+    // precision schedules
+    let t = std::time::Instant::now();
+    let datas8: Vec<Vec<u8>> = (4..=(if q { 5 } else { 7 })).flat_map(|len| all_words(&few8, len)).collect();
+    let datas16: Vec<Vec<u16>> = (3..=5).flat_map(|len| all_words(&few16, len)).collect();
+    macro_rules! sched {
+        ($f:ident, $datas:expr, $p1:expr, $p2:expr) => {{
+            let l1 = letters_at($p1);
+            let l2 = letters_at($p2);
+            // 1 symbol at P1, 2 at P2, 3 at P1 again (a defect in how leftover bits survive the change may only
+            // show a few symbols after switching back); model sequences thinned out deterministically
+            let thin = |v: Vec<Vec<Letter>>, want: usize| -> Vec<Vec<Letter>> { let st = (v.len() / want).max(1); v.into_iter().step_by(st).collect() };
+            let s1: Vec<Vec<Letter>> = thin(model_seqs(&l1, 1), 6);
+            let s2: Vec<Vec<Letter>> = thin(model_seqs(&l2, 2), if q { 9 } else { 27 });
+            let s3: Vec<Vec<Letter>> = thin(model_seqs(&l1, 3), if q { 9 } else { 27 });
+            let st = $datas.par_iter().map(|d| {
+                let mut st = Stats::default();
+                for a in &s1 { for b in &s2 { for c in &s3 {
+                    $f(d, a, b, c, &mut st);
+                }}}
+                st
+            }).reduce(Stats::default, |mut a, b| { a.merge(b); a });
+            report.section(json!({"precision_schedule": stringify!($f), "data_strings": $datas.len(), "cases": st.cases, "restored": st.continuations}));
+            total.merge(st);
+        }};
+    }
+    sched!(sched_8_32_2_4, datas8, 2, 4);
+    sched!(sched_8_32_4_2, datas8, 4, 2);
+    sched!(sched_8_32_2_8, datas8, 2, 8);
+    sched!(sched_8_32_8_2, datas8, 8, 2);
+    sched!(sched_8_16_4_8, datas8, 4, 8);
+    sched!(sched_8_16_8_4, datas8, 8, 4);
+    sched!(sched_8_32_3_4, datas8, 3, 4);
+    sched!(sched_8_32_4_3, datas8, 4, 3);
+    sched!(sched_8_32_5_2, datas8, 5, 2);
+    sched!(sched_8_32_3_8, datas8, 3, 8);
+    sched!(sched_8_16_5_6, datas8, 5, 6);
+    sched!(sched_16_32_12_8, datas16, 12, 8);
+    sched!(sched_16_32_10_16, datas16, 10, 16);
+    sched!(sched_16_32_12_16, datas16, 12, 16);
+    sched!(sched_16_32_16_8, datas16, 16, 8);
+    report.section(json!({"precision_schedules_wall_s": t.elapsed().as_secs_f64()}));
+}
 
 fn letters_at(p: u8) -> Vec<Letter> {
     if p <= 3 { all_pairs(p) } else {
@@ -646,6 +742,11 @@ fn finish(report: &Report, total: Stats, c14: bool) {
         report.count("single_step_out_of_remainders", total.single_out_of_remainders);
     }
     for (i, d) in total.bad {
+        // findings tagged "C14:" belong to C14 (chunk locality), everything else produced by the shared runs to C13
+        let (is14, i) = match i.strip_prefix("C14:") { Some(rest) => (true, rest.to_string()), None => (false, i) };
+        if is14 != c14 && (is14 || i.contains("precision schedule") || i.contains("change_precision") || i.contains("from_remainders")) {
+            continue;
+        }
         report.violation(Violation { identity: i, detail: d, case: json!({"kind": "none"}) });
     }
 }
@@ -698,47 +799,7 @@ pub fn run(report: &Report) {
         run_restore!(report, total, c16_32_16, u16, all_words(&few16, len), 16, 3, format!("strings over 5 boundary words of length {len}"));
         run_restore!(report, total, c32_64_24, u32, all_words(&few32, len), 24, 3, format!("strings over 5 boundary words of length {len}"));
     }
-    // precision schedules
-    let t = std::time::Instant::now();
-    let datas8: Vec<Vec<u8>> = (4..=(if q { 5 } else { 7 })).flat_map(|len| all_words(&few8, len)).collect();
-    let datas16: Vec<Vec<u16>> = (3..=5).flat_map(|len| all_words(&few16, len)).collect();
-    macro_rules! sched {
-        ($f:ident, $datas:expr, $p1:expr, $p2:expr) => {{
-            let l1 = letters_at($p1);
-            let l2 = letters_at($p2);
-            // 1 symbol at P1, 2 at P2, 3 at P1 again (a defect in how leftover bits survive the change may only
-            // show a few symbols after switching back); model sequences thinned out deterministically
-            let thin = |v: Vec<Vec<Letter>>, want: usize| -> Vec<Vec<Letter>> { let st = (v.len() / want).max(1); v.into_iter().step_by(st).collect() };
-            let s1: Vec<Vec<Letter>> = thin(model_seqs(&l1, 1), 6);
-            let s2: Vec<Vec<Letter>> = thin(model_seqs(&l2, 2), if q { 9 } else { 27 });
-            let s3: Vec<Vec<Letter>> = thin(model_seqs(&l1, 3), if q { 9 } else { 27 });
-            let st = $datas.par_iter().map(|d| {
-                let mut st = Stats::default();
-                for a in &s1 { for b in &s2 { for c in &s3 {
-                    $f(d, a, b, c, &mut st);
-                }}}
-                st
-            }).reduce(Stats::default, |mut a, b| { a.merge(b); a });
-            report.section(json!({"precision_schedule": stringify!($f), "data_strings": $datas.len(), "cases": st.cases, "restored": st.continuations}));
-            total.merge(st);
-        }};
-    }
-    sched!(sched_8_32_2_4, datas8, 2, 4);
-    sched!(sched_8_32_4_2, datas8, 4, 2);
-    sched!(sched_8_32_2_8, datas8, 2, 8);
-    sched!(sched_8_32_8_2, datas8, 8, 2);
-    sched!(sched_8_16_4_8, datas8, 4, 8);
-    sched!(sched_8_16_8_4, datas8, 8, 4);
-    sched!(sched_8_32_3_4, datas8, 3, 4);
-    sched!(sched_8_32_4_3, datas8, 4, 3);
-    sched!(sched_8_32_5_2, datas8, 5, 2);
-    sched!(sched_8_32_3_8, datas8, 3, 8);
-    sched!(sched_8_16_5_6, datas8, 5, 6);
-    sched!(sched_16_32_12_8, datas16, 12, 8);
-    sched!(sched_16_32_10_16, datas16, 10, 16);
-    sched!(sched_16_32_12_16, datas16, 12, 16);
-    sched!(sched_16_32_16_8, datas16, 16, 8);
-    report.section(json!({"precision_schedules_wall_s": t.elapsed().as_secs_f64()}));
+    run_schedules(report, &mut total, q);
     single_step_part(report, &mut total, q);
     finish(report, total, false);
 }
@@ -839,6 +900,7 @@ pub fn run_c14(report: &Report) {
         run_locality!(report, total, c16_32_16, u16, all_words(&few16, len), 16, 3, 5, format!("strings over 5 boundary words of length {len}"));
         run_locality!(report, total, c32_64_24, u32, all_words(&few32, len), 24, 3, 5, format!("strings over 5 boundary words of length {len}"));
     }
+    run_schedules(report, &mut total, q);
     finish(report, total, true);
 }
 
